@@ -316,6 +316,23 @@ def c19_c(ctx: Ctx):
             out.append(ctx.inc(R, f, first, "upward search loop not recognised"))
     else:
         out.append(ctx.inc(R, f, f.node, "no upward search loop"))
+    gpf = ctx.fn(GP)
+    pp = [p for p in gpf.params if p not in ("cls", "self")]
+    ppath = pp[0] if pp else "path"
+    exs = [c for c in body_nodes(gpf) if isinstance(c, ast.Call) and common.ext_name(ctx, gpf, c) in ("os.path.exists", "os.path.isdir", "os.path.lexists") and c.args]
+    ke = GP + "|exists-as-given"
+    if not exs:
+        out.append(ctx.inc(R, gpf, gpf.node, "get_project: no existence test of the query path", construct=ke))
+    for c in exs:
+        a = common.inline_at(ctx, gpf, c.args[0], c)
+        norm = [x for x in ast.walk(a) if isinstance(x, ast.Call) and common.ext_name(ctx, gpf, x) in ("os.path.abspath", "os.path.normpath", "os.path.realpath")]
+        if norm:
+            out.append(ctx.viol(R, gpf, c, f"get_project tests the existence of {canon(a)[:50]}, the lexically normalised path: 'sub/ghost/..' or 'notes.txt/..' collapse to an existing directory "
+                                "although a component does not exist (or is a file), so they resolve to the enclosing project instead of raising LookupError", construct=ke))
+        elif canon(a) in (ppath, f"os.fspath({ppath})"):
+            out.append(ctx.ok(R, gpf, c, "get_project tests the existence of the query path as given", construct=ke))
+        else:
+            out.append(ctx.inc(R, gpf, c, f"existence test on {canon(a)[:50]}", construct=ke))
     mi = ctx.prog.funcs.get("signac.__main__:main_init")
     if mi is not None:
         gp = [c for c in body_nodes(mi) if isinstance(c, ast.Call) and (GP in common.targets_of(ctx, mi, c) or "signac.project:get_project" in common.targets_of(ctx, mi, c))]
@@ -337,4 +354,14 @@ def c19_c(ctx: Ctx):
     return out
 
 
-RULES = [c19_a, c19_b, c19_c]
+@rule("C19-d")
+def c19_d(ctx: Ctx):
+    """A configuration that declares no schema version is not taken for a current project (from C20-f)."""
+    from .c20 import c20_f
+    res = [r for r in c20_f(ctx) if "_CFG-default" in r.construct]
+    for r in res:
+        r.rule = "C19-d"
+    return res
+
+
+RULES = [c19_a, c19_b, c19_c, c19_d]
